@@ -66,16 +66,16 @@ func viewPart(name string, quick, thorough int, o kvOpts) sup.Part {
 		defer sim.Close()
 		g := &kv.Gen{R: r, Keys: o.Keys, Colls: cfg.Colls, Bkts: 1, Hnd: 1}
 		age := map[int]string{}
-		install := func(ci int, alt bool) {
-			if err := sim.PutViews(0, ci, kv.ViewSet(alt)); err != nil {
+		install := func(ci int, variant int) {
+			if err := sim.PutViews(0, ci, kv.ViewSetVariant(variant)); err != nil {
 				c.Viol([]string{"C12"}, "view.putddoc", "PutDDoc failed: "+err.Error(), nil)
 			}
 		}
 		for ci := 0; ci < cfg.Colls; ci++ {
-			install(ci, false)
+			install(ci, 0)
 			age[ci] = "fresh"
 		}
-		alt := false
+		variant := 0
 		steps := o.Steps
 		if c.Tier == "thorough" {
 			steps *= 2
@@ -85,7 +85,7 @@ func viewPart(name string, quick, thorough int, o kvOpts) sup.Part {
 			if op.Kind == kv.KDropColl {
 				op.Coll = 1 + r.Intn(cfg.Colls-1)
 				sim.Do(op)
-				install(op.Coll, alt) // a re-created collection has no design documents
+				install(op.Coll, variant) // a re-created collection has no design documents
 				age[op.Coll] = "fresh"
 				continue
 			}
@@ -108,10 +108,10 @@ func viewPart(name string, quick, thorough int, o kvOpts) sup.Part {
 				sim.StaleQuery(0, r.Intn(cfg.Colls), "updateAfter")
 			case 5:
 				if r.Chance(1, 3) {
-					alt = !alt
+					variant = (variant + 1 + r.Intn(2)) % 3 // another map function, or only other reduce functions
 					ci := r.Intn(cfg.Colls)
-					install(ci, alt)
-					age[ci] = "replaced"
+					install(ci, variant)
+					age[ci] = ifStr(variant == 2, "replaced-reduce-only", "replaced")
 				}
 			case 6:
 				if r.Chance(1, 2) {
